@@ -13,6 +13,7 @@ import Dawgs.Model.C01Limit
 import Dawgs.Model.C01With
 import Dawgs.Model.C01Order
 import Dawgs.Model.C01Distinct
+import Dawgs.Model.C01Cross
 import Dawgs.Model.C03Bind
 import Dawgs.Model.SqlSchema
 /-! C01 semantic-search driver (suite `c01sem`, also used by C02).
@@ -520,7 +521,9 @@ def tieStep (_ : Unit) (ts : List String) : Unit × String :=
         -- which stage does the parsed query belong to, and is its Cypher reading the parsed query itself?
         let lim := C01.ofCyLimit2 q
         let ord := C01.ofCyOrder q
-        let stage : Option (String × Bool × Bool) := match lim with
+        let stage : Option (String × Bool × Bool) := match C01.ofCyCross q with
+          | some x => some ("S2x", x.toCy == q, x.wf)
+          | none => match lim with
           | some l => some ("S2L", l.toCy == q, l.base.wf)
           | none => match ord with
           | some o => some ("S1o", o.toCy == q, o.wf)
@@ -548,7 +551,7 @@ def tieStep (_ : Unit) (ts : List String) : Unit × String :=
           if !wf then ((), "outside-fragment not-well-formed-for-" ++ stg) else
           -- the hop's join order is the translator's choice (selectivity heuristic over its Go tree): the real statement must be the
           -- model statement for ONE of the two orders; `dir` records whether it is the order the model's approximation picks
-          let cands := [C01.tr9F (fun _ => false) (fun _ => false) (fun _ => false) true true true km q, C01.tr9F (fun _ => true) (fun _ => true) (fun _ => true) true true true km q].filterMap id
+          let cands := [C01.tr10F (fun _ => false) (fun _ => false) (fun _ => false) (fun _ => false) true true true km q, C01.tr10F (fun _ => true) (fun _ => true) (fun _ => true) (fun _ => true) true true true km q].filterMap id
           match cands with
           | [] => ((), "tie-differs model-translator-rejects-a-translated-query")
           | (st0, ps) :: _ =>
@@ -567,6 +570,7 @@ def tieStep (_ : Unit) (ts : List String) : Unit × String :=
                 let hypB := fun (g : Graph) =>
                   if stg == "S1o" then C01.graphOKb km g && (match ord with | some o => C01.keyOKb g o.key | none => false)
                   else if stg == "S1d" then C01.graphOKb km g && (match C01.ofCyDistinct q with | some d => d.keys.all (C01.scalarKeyB g) | none => false)
+                  else if stg == "S2x" then C01.graphOK2b km g && (match C01.ofCyCross q with | some x => x.keys.all (C01.scalarKeyB g) | none => false)
                   else if stg == "S1" || stg == "S1c" || stg == "S3a" then C01.graphOKb km g else C01.graphOK2b km g
                 let inHyp := graphs.filter hypB
                 let outHyp := graphs.filter (fun g => !hypB g)
